@@ -294,6 +294,150 @@ def getitem_job(lengths, form='nested', tier='quick'):
     return path
 
 
+def flat_cells(x):
+    """all cells of a result in C order, whatever its nesting (RaggedArray, ndarray, list, scalar)"""
+    x = _unlazy(x)
+    if hasattr(x, '_array') and hasattr(x, 'lengths'):
+        out = []
+        for r in x._array:
+            out += flat_cells(r)
+        return out
+    if isinstance(x, np.ndarray):
+        return list(cells(x)) if isinstance(x, SArr) else [c for c in np.asarray(x, dtype=object).reshape(-1)]
+    if isinstance(x, (list, tuple)):
+        out = []
+        for r in x:
+            out += flat_cells(r)
+        return out
+    return [x]
+
+
+def row_lengths(x):
+    x = _unlazy(x)
+    if hasattr(x, '_array'):
+        return [len(r) for r in x._array]
+    return None
+
+
+def elements2d_job(lengths, form='nested', width=2):
+    """ragged arrays whose elements are vectors (frames x width): reads against the list of per-row 2-D arrays"""
+    lengths = list(lengths)
+    N = sum(lengths)
+    n = len(lengths)
+    L = max(lengths)
+    exprs = list(range(-n, n)) + [slice(None), slice(1, None), slice(None, -1), slice(None, None, 2), [n - 1, 0]]
+    for i in range(-n, n):
+        for j in range(-L, L):
+            exprs.append((i, j))
+        for c in (slice(None), slice(0, 1), slice(1, None), slice(None, None, 2), slice(None, -1)):
+            exprs.append((i, c))
+    for r in (slice(None), slice(0, 1), slice(1, None)):
+        for c in (slice(None), slice(0, 1), slice(0, 2), slice(None, None, 2)):
+            exprs.append((r, c))
+
+    def mk(sym, k0):
+        ra = RA()
+        rows = []
+        k = 0
+        for ln in lengths:
+            rows.append([[k0(k + j, w) for w in range(width)] for j in range(ln)])
+            k += ln
+        conv = (lambda r: funcs.np_array(r, dtype=int)) if sym else (lambda r: np.array(r, dtype=int))
+        if form == 'nested':
+            a = ra.RaggedArray([conv(r) for r in rows])
+        else:
+            a = ra.RaggedArray(conv([f for r in rows for f in r]), lengths=list(lengths))
+        return a, rows
+
+    def evaluate(a, rows):
+        res = []
+        mrows = [np.array(r, dtype=object).reshape(len(r), width) for r in rows]
+        for idx in exprs:
+            try:
+                if isinstance(idx, tuple):
+                    r_, c_ = idx
+                    if isinstance(r_, int):
+                        exp = mrows[r_][c_]
+                        exp_l = None
+                    else:
+                        sel_ = mrows[r_]
+                        exp = [x[c_] for x in sel_]
+                        exp_l = [len(x[c_]) for x in sel_]
+                elif isinstance(idx, int):
+                    exp, exp_l = mrows[idx], None
+                elif isinstance(idx, slice):
+                    exp, exp_l = mrows[idx], [len(x) for x in mrows[idx]]
+                else:
+                    exp, exp_l = [mrows[i] for i in idx], [len(mrows[i]) for i in idx]
+                expc = flat_cells(exp)
+            except Exception as e:
+                expc, exp_l = e, None
+            try:
+                g = a[idx]
+                got, got_l = flat_cells(g), row_lengths(g)
+            except (core.Unsupported, core.Inconclusive):
+                raise
+            except Exception as e:
+                got, got_l = e, None
+            res.append((idx, got, got_l, expc, exp_l))
+        return res
+
+    def agree(got, got_l, exp, exp_l):
+        if isinstance(got, Exception) or isinstance(exp, Exception):
+            return isinstance(got, Exception) and isinstance(exp, Exception)
+        if len(got) != len(exp):
+            return False
+        if exp_l is not None and got_l is not None and list(got_l) != list(exp_l):
+            return False
+        return conj([x == y for x, y in zip(got, exp)]) if got else True
+
+    def region2(idx, exp, exp_l):
+        if isinstance(idx, tuple):
+            r_, c_ = idx
+            fake_expected = exp if isinstance(exp, Exception) else ('ra', [[0] * l for l in exp_l]) if exp_l is not None else ('arr', [])
+            return region_of((r_, c_), lengths, fake_expected)
+        if isinstance(idx, slice) and exp_l is not None and len(exp_l) == 0:
+            return 'ra[rows]:empty-selection'
+        return 'regular'
+
+    def path(ctx):
+        toks = {}
+
+        def tok(k, w):
+            if (k, w) not in toks:
+                toks[(k, w)] = core.fresh_int('e')
+            return toks[(k, w)]
+        a, rows = mk(True, tok)
+        res = evaluate(a, rows)
+        by = {}
+        for idx, got, got_l, exp, exp_l in res:
+            by.setdefault(region2(idx, exp, exp_l), []).append(agree(got, got_l, exp, exp_l))
+        obs = [('vector-element reads equal the list-of-rows model [region %s; %d index expressions]' % (reg, len(v)), conj(v))
+               for reg, v in sorted(by.items())]
+        obs.append(('shape-reports-the-element-width', tuple(a.shape) == (n, lengths[0] if len(set(lengths)) == 1 else None, width)))
+
+        def witness(model, label=None):
+            with core.concrete_mode():
+                a2, rows2 = mk(False, lambda k, w: 100 + 10 * k + w)
+                res2 = evaluate(a2, rows2)
+            bad = {}
+            for idx, got, got_l, exp, exp_l in res2:
+                if not agree(got, got_l, exp, exp_l):
+                    bad.setdefault(region2(idx, exp, exp_l), []).append(show(idx))
+            out = {'inputs': {'lengths': lengths, 'form': form, 'element_width': width}, 'out': {r: v[:6] for r, v in bad.items()},
+                   'skip_compare': True, 'violated': []}
+            order = sorted(bad)
+            if label is not None:
+                order = [r for r in order if ('[region %s;' % r) in label]
+            for reg in order:
+                out['violated'] = ['read differs from list-of-rows model: ' + ', '.join(bad[reg][:4])]
+                out['signature'] = 'getitem:' + reg
+                return out
+            return out
+        return PathOut(obs, {}, witness, desc='vector elements lengths=%s %s: %d expressions' % (lengths, form, len(exprs)))
+    return path
+
+
 def multi_confirm(spec, po, label, model):
     pass
 
@@ -687,6 +831,61 @@ def operator_job(lengths, opname, other='ra'):
                         not np.shares_memory(_raw(r._data), _raw(a._data)) and not np.shares_memory(_raw(r._data), _raw(b._data))))
         obs.append(('operands-unaltered', conj([p == q for p, q in zip(list(cells(a._data)) + list(cells(b._data)), a0 + b0)])))
         return PathOut(obs, {}, witness, desc='%s %s' % (opname, other))
+    return path
+
+
+def reduce_job(lengths):
+    """reductions (all / any / max / min), ~, | and & on boolean ragged arrays agree with the list-of-rows model"""
+    lengths = list(lengths)
+    N = sum(lengths)
+
+    def path(ctx):
+        ra = RA()
+        x = [core.fresh_int('x') for _ in range(N)]
+        b1 = [core.fresh_bool('p') for _ in range(N)]
+        b2 = [core.fresh_bool('q') for _ in range(N)]
+        a, _ = build(lengths, lambda k: x[k], 'nested')
+        A = ra.RaggedArray(funcs.np_array(b1, dtype=bool), lengths=list(lengths))
+        B = ra.RaggedArray(funcs.np_array(b2, dtype=bool), lengths=list(lengths))
+        mx, mn = a.max(), a.min()
+        obs = [('max-is-an-element-and-an-upper-bound', sand(sor(*[mx == v for v in x]), conj([mx >= v for v in x]))),
+               ('min-is-an-element-and-a-lower-bound', sand(sor(*[mn == v for v in x]), conj([mn <= v for v in x]))),
+               ('all', A.all() == sand(*b1)), ('any', A.any() == sor(*b1))]
+        inv, orr, andd = ~A, A | B, A & B
+        for name, r, want in (('invert', inv, [snot(v) for v in b1]), ('or', orr, [sor(p, q) for p, q in zip(b1, b2)]),
+                              ('and', andd, [sand(p, q) for p, q in zip(b1, b2)])):
+            ok = hasattr(r, '_data') and [int(v) for v in cells(r.lengths)] == lengths and r is not A and r is not B
+            obs.append(('%s-is-a-new-ragged-array-with-the-same-structure' % name, ok))
+            if ok:
+                obs.append(('%s-element-wise' % name, conj([g == w for g, w in zip(cells(r._data), want)])))
+        obs.append(('operands-unaltered', conj([p == q for p, q in zip(list(cells(A._data)) + list(cells(B._data)), b1 + b2)])))
+
+        def witness(model):
+            xv = [int(ev(model, v)) for v in x]
+            p1 = [bool(ev(model, v)) for v in b1]
+            p2 = [bool(ev(model, v)) for v in b2]
+            out = {'inputs': {'lengths': lengths, 'x': xv, 'p': p1, 'q': p2}, 'skip_compare': True, 'out': None}
+            with core.concrete_mode():
+                a2, _ = build(lengths, lambda k: xv[k], 'nested')
+                A2 = ra.RaggedArray(np.array(p1), lengths=list(lengths))
+                B2 = ra.RaggedArray(np.array(p2), lengths=list(lengths))
+                bad = []
+                try:
+                    if a2.max() != max(xv) or a2.min() != min(xv):
+                        bad.append('max/min wrong')
+                    if bool(A2.all()) != all(p1) or bool(A2.any()) != any(p1):
+                        bad.append('all/any wrong')
+                    if list((~A2)._data) != [not v for v in p1] or list((A2 | B2)._data) != [u or v for u, v in zip(p1, p2)] or \
+                            list((A2 & B2)._data) != [u and v for u, v in zip(p1, p2)]:
+                        bad.append('boolean operator wrong')
+                    if list(A2._data) != p1 or list(B2._data) != p2:
+                        bad.append('operand modified')
+                except Exception as e:
+                    bad.append('raises %s' % type(e).__name__)
+            out['violated'] = bad
+            out['signature'] = 'reduce:' + (bad[0] if bad else 'ok')
+            return out
+        return PathOut(obs, {}, witness, desc='reductions and boolean operators lengths=%s' % lengths)
     return path
 
 
